@@ -158,7 +158,7 @@ package table
 //@ func table.Build -> ix, r
 //@ props C11 C12
 //@ requires dataBlockSize >= 0
-//@ assigns BufC, BufStore, BufOwned
+//@ assigns BufC, BufStore, BufOwned, DEnc, DLcp, IEnc
 //@ ensures r != nil ==> arrid(r) >= old(alloc)
 //@ ensures len(ix.Entries) >= 0 && (len(entries) > 0 ==> len(ix.Entries) >= 1)
 //@ ensures forall(Int(x), old(BufOwned)[x] ==> (BufOwned[x] && BufC[x] == old(BufC)[x] && BufStore[x] == old(BufStore)[x]), trig(BufOwned[x]), trig(old(BufOwned)[x]))
